@@ -79,6 +79,24 @@ GRV_CMD(features) {
                     if (p) gr_label_destroy(p);
                 }
             }
+            {   // a refused set leaves the object as it was: an empty object (gr_featureval_clone(NULL)) stays unbound and can
+                // still be used with the features of another face made from the same tables
+                gr_face *other = fc.tf->make((fonts & 1) ? gr_face_default : gr_face_preloadAll);
+                for (size_t k = 0; other && k < fc.defs.size(); ++k) {
+                    if (fc.defs[k].empty()) continue;
+                    long mx = -1; for (long long sv : fc.defs[k]) mx = std::max<long>(mx, long(sv));
+                    if (mx >= 65535) continue;
+                    const gr_feature_ref *ro = gr_face_find_fref(other, gr_fref_id(fc.fref[k]));
+                    if (!ro) { report_fail("C18", "a second face made from the same tables lacks a feature", J(line, 500)); continue; }
+                    gr_feature_val *fv = gr_featureval_clone(0);
+                    const int rc1 = gr_fref_set_feature_value(fc.fref[k], gr_uint16(mx + 1), fv);
+                    const int rc2 = gr_fref_set_feature_value(ro, gr_uint16(mx), fv);
+                    if (rc1 != 0 || rc2 == 0 || gr_fref_feature_value(ro, fv) != unsigned(mx))
+                        report_fail("C18", "a refused gr_fref_set_feature_value changed the object (an empty object can no longer be used with another face)", J(line, 500));
+                    gr_featureval_destroy(fv);
+                }
+                if (other) gr_face_destroy(other);
+            }
             {   // unknown language -> defaults; tag 0 and the all-space tag -> defaults (also when the Sill table has an entry
                 // under tag 0), and they are the values the Feat table declares first
                 gr_feature_val *a = gr_face_featureval_for_lang(fc.face, 0x7A7A7A00u), *b = gr_face_featureval_for_lang(fc.face, 0), *c = gr_face_featureval_for_lang(fc.face, 0x20202020u);
